@@ -284,7 +284,7 @@ pub fn run(tier: &str, seed: u64) -> i32 {
         (longer needles, multi-byte and special-casing letters, regexes) against haystacks derived from the \
         members (needle at start/middle/end, case-flipped, truncated, doubled) and arrays of them. Oracle: \
         independent pattern parser + ==/starts_with/ends_with/contains on ASCII-folded strings (regex crate for \
-        regex members); a list is the OR of its members. Regexes include outer wildcards pinned to the start / end \
+        regex members); a list is the OR of its members. Long needles (64 bytes to 1 KiB, thorough 4 KiB, around powers of two) of every relation and case flag, alone and in lists next to a short or another long member, against the needle, its case-flipped copy and one-off neighbours. Regexes include outer wildcards pinned to the start / end \
         and haystacks include line feeds. Every document is also matched against the rule optimised with the default switches and with one further switch set; a verdict that differs from the rule as loaded must be explained by the known findings K1 / K2 (relaxed reference for that switch set). Non-trivial: a rule for which some haystack matches and \
         some does not; distinct by rule text."
         .into();
@@ -325,6 +325,59 @@ pub fn run(tier: &str, seed: u64) -> i32 {
         let out = judge(&c);
         report.label("regexes_beyond_the_set_size_limit");
         report.record(&c, out);
+    }
+    // long needles (around powers of two, up to 1 KiB; thorough 4 KiB) of every relation and case flag, alone and
+    // as members of a list next to a short member or a second long one: a member decides by the
+    // documented relation whatever its length and whatever company it keeps
+    {
+        let mut long_cases = vec![];
+        let lengths: &[usize] = if tier == "thorough" {
+            &[63, 64, 65, 127, 128, 129, 255, 256, 257, 300, 511, 512, 513, 1000, 1023, 1024, 1025, 2049, 4097]
+        } else {
+            &[64, 255, 256, 257, 1000, 1025]
+        };
+        for &len in lengths {
+            let needle: String = (0..len).map(|i| ['a', 'B', 'c', 'a', 'b', 'Z'][(i * 7 + i / 5) % 6]).collect();
+            let flip: String = needle.chars().map(|c| if c.is_ascii_lowercase() { c.to_ascii_uppercase() } else { c.to_ascii_lowercase() }).collect();
+            let mut short = needle.clone();
+            short.pop();
+            let hays: Vec<String> = vec![
+                needle.clone(), flip.clone(), format!("{needle}x"), format!("x{needle}"), format!("x{flip}x"), format!("{flip}x"),
+                format!("x{flip}"), short, "zz".to_string(), String::new(),
+            ];
+            let docs = docs_of(&hays);
+            for (rel, text) in [("exact", needle.clone()), ("prefix", format!("{needle}*")), ("suffix", format!("*{needle}")), ("contains", format!("*{needle}*")), ("quoted", format!("\"{needle}\""))] {
+                for ci in [false, true] {
+                    let m = if ci { format!("i{text}") } else { text.clone() };
+                    let other_long = if ci { format!("*{}q*", &needle[..len - 1]) } else { format!("i*{}q*", &needle[..len - 1]) };
+                    for val in [
+                        ValSpec::Str(m.clone()),
+                        ValSpec::List(vec![ValSpec::Str(m.clone()), ValSpec::Str("zzz".into())]),
+                        ValSpec::List(vec![ValSpec::Str("izzz".into()), ValSpec::Str(m.clone())]),
+                        ValSpec::List(vec![ValSpec::Str(other_long.clone()), ValSpec::Str(m.clone()), ValSpec::Str("?^q+$".into())]),
+                    ] {
+                        let mut c = case_for("c07.long_needle", val, &docs, "long");
+                        c.extra = json!({"form": "long", "relation": rel, "needle_bytes": len, "case_insensitive": ci});
+                        long_cases.push(c);
+                    }
+                }
+            }
+        }
+        let chunks: Vec<Report> = par_run(|w, n| {
+            let mut sub = report.sub();
+            for (i, c) in long_cases.iter().enumerate() {
+                if i % n != w {
+                    continue;
+                }
+                let out = judge(c);
+                sub.label("long_needle");
+                sub.record(c, out);
+            }
+            sub
+        });
+        for s in chunks {
+            report.merge(s);
+        }
     }
     let n = if tier == "thorough" { 400_000 } else { 20_000 };
     let strat = || {
